@@ -202,7 +202,7 @@ def job_api(j):
         if mode.startswith('overlapped'):
             # the poll runs while other calls on the same object are pending / queued (single reads of other registers)
             import asyncio
-            others = [x.id_ for x in inv.sensors() if own_span(x)]
+            others = [x.id_ for x in world.listed(inv) if own_span(x)]
 
             async def overlapped():
                 res = await asyncio.gather(inv.read_runtime_data(), inv.read_sensor(others[0]), inv.read_sensor(others[-1]),
@@ -221,8 +221,8 @@ def job_api(j):
                    (not mode.startswith('overlapped') or q['count'] > 8)]
         if mode.startswith('second-poll') and fam != 'ES':
             windows = windows + prev_windows      # what the previous poll fetched and reported is still reported: from where?
-        ids = [s.id_ for s in inv.sensors()]
-        for s in inv.sensors():
+        ids = [s.id_ for s in world.listed(inv)]
+        for s in world.listed(inv):
             if not own_span(s) or s.id_ not in d:
                 continue
             if ids.count(s.id_) > 1:
@@ -267,7 +267,7 @@ def job_api(j):
                 # another object of the same family but another model class is detected and used in this process
                 from ..configs import configure_neighbour
                 configure_neighbour(cfg)
-            sens = [('sensor', s) for s in inv.sensors() if own_span(s)]
+            sens = [('sensor', s) for s in world.listed(inv) if own_span(s)]
             sets = [('setting', s) for s in inv.settings() if own_span(s)]
             # which registers an id stands for on THIS object must not depend on other objects in the process
             sig = {(k, s.id_): (tname(s), s.offset, getattr(s, 'scale', None), s.unit) for k, s in sens + sets}
